@@ -21,7 +21,9 @@ WQ = [("fixed", "quantized_bits(4,0,1,alpha=1.0)"), ("fixed", "quantized_bits(6,
       ("fixed-asym", "quantized_bits(5,1,0,alpha=1.0)"), ("fixed", "quantized_bits(8,0,1,alpha=1.0)"),
       ("po2", "quantized_po2(4)"), ("po2", "quantized_po2(3)"),
       # max_value that is not a power of two: the largest code is the next power of two above it (log-nearest rounding of the clipped value)
-      ("po2-cap", "quantized_po2(4,max_value=3)"), ("po2-cap", "quantized_po2(5,max_value=6)"), ("ternary", "ternary(alpha=1.0)"), ("binary", "binary(alpha=1.0)"),
+      ("po2-cap", "quantized_po2(4,max_value=3)"), ("po2-cap", "quantized_po2(5,max_value=6)"),
+      # max_value <= 1: the quantizer spends no bit on the sign of the exponent, its exponents reach -2^(bits-1)
+      ("po2-nosign", "quantized_po2(4,max_value=1)"), ("po2-nosign", "quantized_po2(3,max_value=0.5)"), ("ternary", "ternary(alpha=1.0)"), ("binary", "binary(alpha=1.0)"),
       ("auto_po2", "quantized_bits(4,0,1,alpha='auto_po2')"), ("auto_po2", "quantized_bits(6,1,1,alpha='auto_po2')")]
 BQ = ["quantized_bits(6,1,1)", "quantized_bits(8,3,0)", "quantized_bits(4,0,1)", "quantized_po2(4)", None]
 AQ = ["quantized_relu(6,2)", "quantized_bits(6,2,1)", "quantized_relu(4,1)", "quantized_bits(4,1,0)", "quantized_relu(3,0)"]
@@ -167,7 +169,7 @@ def main():
     wlayers = [l for l in m.layers if type(l).__name__ in ("QDense", "QConv1D", "QConv2D", "QDepthwiseConv2D")]
     subm = Model(m.inputs, [l.output for l in m.layers[1:]])
     names = [l.name for l in m.layers[1:]]
-    for wmode in (["random", "all-max", "all-min", "signs"] if rep.tier == "thorough" or i % 2 == 0 or i >= n else ["random", "signs"]):
+    for wmode in (["random", "all-max", "all-min", "signs", "tiny"] if rep.tier == "thorough" or i % 2 == 0 or i >= n else ["random", "signs"]):
       ws = []
       for w in m.get_weights():
         if wmode == "random":
@@ -176,6 +178,8 @@ def main():
           ws.append(np.full(w.shape, 100.0, dtype=np.float32))
         elif wmode == "all-min":
           ws.append(np.full(w.shape, -100.0, dtype=np.float32))
+        elif wmode == "tiny":
+          ws.append((rng.choice([-1e-5, 1e-5], size=w.shape)).astype(np.float32))     # the smallest magnitudes a quantizer can emit
         else:
           ws.append((rng.choice([-100.0, 100.0], size=w.shape)).astype(np.float32))
       m.set_weights(ws)
